@@ -112,7 +112,7 @@ def run(ck, prop="C01"):
         ck.report(dict(input=cases[ci]["line"] if len(cases[ci]["line"]) < 400000 else "icosphere level 6 (40962 nodes), events " + " ".join(cases[ci]["events"]),
                        events=cases[ci]["events"][:k], failing_state_index=k), oracle=key, key="refine:" + key,
                   what="after event %d (%s) of the history: %s" % (k, sts_[k]["name"] if sts_ else "INIT", f))
-    if broken and not fails:
+    if broken and not ck.violations:
         ci, k, d = broken[0]
         ck.report(dict(input=cases[ci]["line"], failing_state_index=k, difference=d, n_disagreements=len(broken)),
                   unchecked="correspondence MeshOps.replay(trace) = implementation store after the pass",
